@@ -102,11 +102,18 @@ def main():
             mod.run(ctx)
         except (CheckBroken, common.EngineBuildError):
             raise
-        except Exception:
+        except Exception as ex:
             # a crash of the harness after the real code already failed the property must not hide the failure
-            if not ctx.violations:
+            msg = str(ex)
+            if ctx.violations:
+                ctx.notes.append("harness raised after recording a failing input: " + traceback.format_exc()[-600:])
+            elif isinstance(ex, (ValueError, OverflowError)) and any(w in msg for w in ("NaN", "nan", "Infinity", "infinity")):
+                # the real code handed back a non-finite number where the model has a rational: the correspondence cannot be
+                # evaluated on this tree (never happens on a tree where the property holds: all generated systems are finite)
+                ctx.broken.append({"kind": "correspondence", "name": "non-finite value returned by the implementation",
+                                   "log": traceback.format_exc()[-800:]})
+            else:
                 raise
-            ctx.notes.append("harness raised after recording a failing input: " + traceback.format_exc()[-600:])
         # ---- failing-input search when something is broken but no failing input is known yet
         if ctx.broken and not ctx.violations and hasattr(mod, "search"):
             mod.search(ctx)
